@@ -6,6 +6,8 @@ whose check_call consults the scripted pass/fail table and whose run() (the fina
 Case: {n, explicit: [[j, d]...], resource: [[j, d]...], always: [bool]*n, fails: [bool]*n}
   jobs are created in index order 0..n-1 (creation order); edge [j, d] = job j depends on job d;
   a resource edge makes j's command mention a file produced by d.
+  optional 'py': {kinds: ['bash'|'py']*n, ops: [...]}  -> PythonJob pipeline (see build_py): resources reach a PythonJob through the
+  arguments of j.call(f, *args, **kwargs) — positionally, as keyword values, nested in lists / tuples / dicts.
 Result: {result: ok|failed|cycle|error:<T>, ids, deps (iteration order of j._dependencies), executed, skipped, shell, rm}
 """
 import contextlib
@@ -60,9 +62,8 @@ class FakeSP:
         raise AssertionError(f'unexpected use of subprocess.{name}')
 
 
-def run_case(lb, fake, case):
+def build_bash(b, case):
     n = case['n']
-    b = hb.Batch(backend=lb, name='c17')
     jobs = [b.new_job(name=f'n{i}') for i in range(n)]
     for i, a in enumerate(case['always']):
         if a:
@@ -78,6 +79,89 @@ def run_case(lb, fake, case):
             jobs[j].command(f'cat {jobs[d].out}')
     for j in jobs:
         j.command('true')
+    return jobs
+
+
+def py_f(*args, **kwargs):
+    return 0
+
+
+def py_g(a, b=None, *rest, **kw):
+    return [a, b]
+
+
+def build_py(b, case):
+    """PythonJob pipelines (case['py']): jobs are created in index order, the operations come in an order in which every
+    resource is defined before it is used; a resource reaches a PythonJob only through the arguments of j.call(...).
+
+    ops: ['produce', j, ident] | ['declare', j] | ['cat', j, REF] | ['dep', j, d] | ['call', j, [ARG...], [[kw, ARG]...], 'f'|'g']
+    REF: ['file', j, ident] | ['group', j] | ['groupfile', j, ext] | ['res', k, 'raw'|'str'|'repr'|'json']   (k = index of the k-th call)
+    ARG: ['v', const] | ['r', REF] | ['l', [ARG...]] | ['t', [ARG...]] | ['d', [[key, ARG]...]]
+    """
+    spec = case['py']
+    n = case['n']
+    jobs = [b.new_python_job(name=f'n{i}') if spec['kinds'][i] == 'py' else b.new_bash_job(name=f'n{i}') for i in range(n)]
+    for i, a in enumerate(case['always']):
+        if a:
+            jobs[i].always_run()
+    results = []
+
+    def ref(x):
+        if x[0] == 'file':
+            return jobs[x[1]][x[2]]
+        if x[0] == 'group':
+            return jobs[x[1]]['grp']
+        if x[0] == 'groupfile':
+            return jobs[x[1]]['grp'][x[2]]
+        if x[0] == 'res':
+            r = results[x[1]]
+            return {'raw': lambda: r, 'str': r.as_str, 'repr': r.as_repr, 'json': r.as_json}[x[2]]()
+        raise ValueError(x)
+
+    def arg(a):
+        k = a[0]
+        if k == 'v':
+            return a[1]
+        if k == 'r':
+            return ref(a[1])
+        if k == 'l':
+            return [arg(x) for x in a[1]]
+        if k == 't':
+            return tuple(arg(x) for x in a[1])
+        if k == 'd':
+            return {key: arg(x) for key, x in a[1]}
+        raise ValueError(a)
+
+    for op in spec['ops']:
+        k = op[0]
+        if k == 'produce':
+            jobs[op[1]].command(f'echo x > {jobs[op[1]][op[2]]}')
+        elif k == 'declare':
+            jobs[op[1]].declare_resource_group(grp={'bed': '{root}.bed', 'bim': '{root}.bim'})
+            jobs[op[1]].command(f'echo x > {jobs[op[1]]["grp"]["bed"]}')
+        elif k == 'cat':
+            jobs[op[1]].command(f'cat {ref(op[2])}')
+        elif k == 'dep':
+            jobs[op[1]].depends_on(jobs[op[2]])
+        elif k == 'call':
+            fn = py_g if op[4] == 'g' else py_f
+            results.append(jobs[op[1]].call(fn, *[arg(a) for a in op[2]], **{key: arg(a) for key, a in op[3]}))
+        else:
+            raise ValueError(op)
+    for j, kind in zip(jobs, spec['kinds']):
+        if kind == 'bash':
+            j.command('true')
+        elif not j._function_calls:
+            j.call(py_f)
+    return jobs
+
+
+def run_case(lb, fake, case):
+    b = hb.Batch(backend=lb, name='c17')
+    if case.get('py'):
+        jobs = build_py(b, case)
+    else:
+        jobs = build_bash(b, case)
     index = {j: i for i, j in enumerate(jobs)}
     uid_index = {j._uid: i for i, j in enumerate(jobs)}
     deps = [[index.get(d, -1) for d in j._dependencies] for j in jobs]
@@ -92,7 +176,7 @@ def run_case(lb, fake, case):
         except ScriptedFailure:
             result = 'failed'
         except Exception as e:  # noqa
-            result = f'error:{type(e).__name__}'
+            result = f'error:{type(e).__name__}:{str(e)[:200]}'
     skipped = [uid_index[u] for u in re.findall(r'^Job (\S+) was cancelled\. Not running$', out.getvalue(), flags=re.M)]
     return {'result': result, 'ids': [j._job_id for j in jobs], 'deps': deps,
             'executed': fake.executed, 'skipped': skipped, 'shell': fake.shell, 'rm': fake.rm,
